@@ -19,3 +19,5 @@ from props import _groups as _G
 UNITS = _G.with_groups(PROPERTY, UNITS, _G.READERS, _G.VALIDATION, _G.CHECKS)
 from contracts import structure as ST2
 UNITS += [ST2.unit_no_hidden_state().also("C05")]
+from contracts import history as HI
+UNITS += [HI.unit_history_sweep().also("C05")]
